@@ -113,3 +113,31 @@ pub fn run_mem(b: &[u8]) -> Vec<u64> {
     drop(d);
     vec![ok as u64]
 }
+
+// ---- the section re-assembly chain alone (no de-duplication, no CRC layer) under the counting allocator ----
+pub struct QuietSecCtx;
+pub struct QuietSec;
+impl mpeg2ts_reader::psi::WholeSectionSyntaxPayloadParser for QuietSec {
+    type Context = QuietSecCtx;
+    fn section<'a>(&mut self, _: &mut QuietSecCtx, _h: &mpeg2ts_reader::psi::SectionCommonHeader, _t: &mpeg2ts_reader::psi::TableSyntaxHeader<'a>, data: &'a [u8]) { note_slice(data); }
+}
+impl mpeg2ts_reader::psi::WholeCompactSyntaxPayloadParser for QuietSec {
+    type Context = QuietSecCtx;
+    fn section(&mut self, _: &mut QuietSecCtx, _h: &mpeg2ts_reader::psi::SectionCommonHeader, data: &[u8]) { note_slice(data); }
+}
+/// warm-up packets, then steady packets (the same sections again): [allocations during the steady part, sections delivered in it]
+pub fn run_seca(compact: bool, warm: &[Vec<u8>], steady: &[Vec<u8>]) -> Vec<u64> {
+    use mpeg2ts_reader::psi;
+    let mut ctx = QuietSecCtx;
+    RANGE.with(|r| r.set((0, usize::MAX)));
+    macro_rules! drive { ($c:expr) => {{ let mut c = $c;
+        for p in warm { c.consume(&mut ctx, &Packet::new(p)); }
+        SLICES.with(|c| c.set(0));
+        let a0 = ALLOCS.load(Ordering::Relaxed);
+        for p in steady { c.consume(&mut ctx, &Packet::new(p)); }
+        let a1 = ALLOCS.load(Ordering::Relaxed);
+        vec![a1 - a0, SLICES.with(|c| c.get())]
+    }} }
+    if compact { drive!(psi::SectionPacketConsumer::new(psi::CompactSyntaxSectionProcessor::new(psi::BufferCompactSyntaxParser::new(QuietSec)))) }
+    else { drive!(psi::SectionPacketConsumer::new(psi::SectionSyntaxSectionProcessor::new(psi::BufferSectionSyntaxParser::new(QuietSec)))) }
+}
